@@ -46,6 +46,8 @@ const DRIVEN: &[&str] = &[
     "with_typed_slice", "with_typed_slice_ref",
     "call_typed_slice", "call_typed_slice_with_timeout", "call_typed_slice_aligned", "call_typed_slice_aligned_with_timeout",
     "call_typed_beve", "call_typed_beve_with_timeout",
+    // frame parsers the frames are handed to (`Message::from_slice*`, `MessageView::from_slice`), `TypedResponse::beve`
+    "from_slice", "from_slice_exact", "beve",
 ];
 /// Matching names that are deliberately not driven, and why.
 const NOT_DRIVEN_BECAUSE: &[(&str, &str)] = &[
@@ -1765,6 +1767,10 @@ fn op_capr<T: Elem>(c: &mut Ctx, client: &str, kind: &str, same: bool, resp_fmt:
             }
             format!("ok {}", show_elems(v.len(), &p))
         }
+        Err(e) if e.to_string().contains("WATCHDOG") => {
+            c.fail(&format!("numeric.capr.{}.{}.call_never_returned", client, kind), format!("the peer answered ({} elements) but the call did not return within {} s", n2, WATCHDOG.as_secs()));
+            "err never-returned".to_string()
+        }
         Err(e) => {
             if same {
                 c.fail(&format!("numeric.capr.{}.{}.response_rejected", client, kind), format!("a well-formed response of the element type was rejected: {}", cls_of(e)));
@@ -3018,8 +3024,21 @@ fn generate(seed: u64, thorough: bool) -> Vec<String> {
         push!(g, "capq", "{} bulk 0 3 {} 5 {}", client, hex(format!("/!stall{}", ms).as_bytes()), hex(&p));
     }
     // ---- 6i. error answers (every error code) over a decodable body; unknown path ---------------------------
-    for (i, ec) in [1u32, 2, 3, 4, 5, 6, 7, 8, 9, 4096, 4097, 65535, u32::MAX].into_iter().enumerate() {
-        push!(g, "capre", "{} {} {}", ["sync", "syncp", "async", "asyncp"][i % 4], if i % 2 == 0 { "bulk" } else { "aligned" }, ec);
+    for ec in [1u32, 2, 3, 4, 5, 6, 7, 8, 9, 4096, 4097, 65535, u32::MAX] {
+        for client in ["sync", "syncp", "async", "asyncp"] {
+            for kind in ["bulk", "aligned"] {
+                push!(g, "capre", "{} {} {}", client, kind, ec);
+            }
+        }
+    }
+    // every entry point: an empty and a non-empty answer of the right element type to a non-empty request
+    for client in ["sync", "syncp", "async", "asyncp"] {
+        for kind in ["bulk", "aligned"] {
+            let (cls, code, w) = *g.r.pick(&TYPES);
+            let p = gen_payload(&mut g.r, cls, code, w, 3, 1);
+            push!(g, "capr", "{} {} {} {} {} {} 0 -", client, kind, cls, code, cls, code);
+            push!(g, "capr", "{} {} {} {} {} {} 3 {}", client, kind, cls, code, cls, code, hex(&p));
+        }
     }
     for (i, kind) in ["bulk", "aligned", "serde"].into_iter().enumerate() {
         let (cls, code, w) = TYPES[(i * 5) % 14];
